@@ -67,6 +67,22 @@ def _run(sc):
             n.listen(L["adr"], tag=L["tag"])
             lst.append({"tag": L["tag"], "kind": "int", "adr": L["adr"], "ca": 0})
         cfg[nd["name"]] = {"cas": ccfg, "lst": lst, "reqtag": reqtag}
+        # a reactive application: on a frame of a given PGN (from a given source address) it calls into its CA from INSIDE
+        # the delivery callback - on a zero-latency bus that call runs while the sender is still inside its send call
+        for rx in nd.get("react", []):
+            def react(priority, pgn, sa, timestamp, data, rx=rx, n=n, left=[rx.get("times", 1)]):
+                if pgn != rx["pgn"] or (rx.get("sa") is not None and sa != rx["sa"]) or left[0] <= 0:
+                    return
+                left[0] -= 1
+                ca = cas[n.name][rx.get("ca", 1) - 1]
+                o = rx["do"]
+                if o["op"] == "send_request":
+                    sim.api(n, "ca_send_request", lambda: ca.send_request(o["dp"], o["pgn"], o["dest"]),
+                            ca=rx.get("ca", 1), dp=o["dp"], pgn=o["pgn"], dest=o["dest"])
+                else:
+                    sim.api(n, "ca_send_pgn", lambda: ca.send_pgn(o["dp"], o["pf"], o["ps"], o["prio"], list(o["data"])),
+                            ca=rx.get("ca", 1), dp=o["dp"], pf=o["pf"], ps=o["ps"], prio=o["prio"], data=list(o["data"]))
+            n.ecu.subscribe(react)
 
     def proj(node):
         try:
